@@ -50,7 +50,7 @@ type c04Gen struct {
 func generateC04(c *core.Ctx, maxDist, emitDist int) (*c04Gen, error) {
 	mod := "MCgen_GossipValidate"
 	cfg := "CONSTANTS\n" + c04Consts() + fmt.Sprintf(" MCTypes = {\"shares\", \"keys\"}\n MaxDist = %d\n EmitDist = %d\n Emit = TRUE\n", maxDist, emitDist) +
-		"SPECIFICATION Spec\nINVARIANT Design\nINVARIANT EmitInv\nCHECK_DEADLOCK FALSE\n"
+		"SPECIFICATION Spec\nINVARIANT EmitInv\nINVARIANT Design\nCHECK_DEADLOCK FALSE\n"
 	workers := c.Workers
 	if workers > 8 {
 		workers = 8
@@ -267,6 +267,9 @@ func validateLines(lines []Line, datas [][]byte, validate func([]byte) (*vResult
 	if n < 1500*nch {
 		nch = 1 + n/1500
 	}
+	if n > 150000*nch { // keep the trace file of one TLC run small
+		nch = (n + 149999) / 150000
+	}
 	per := (n + nch - 1) / nch
 	type chunk struct {
 		from, to int
@@ -421,7 +424,7 @@ func CheckC04(c *core.Ctx) int {
 	ctx := context.Background()
 	maxDist, emitDist, nRandom := 3, 2, 4000
 	if c.Thorough() {
-		maxDist, emitDist, nRandom = 5, 3, 60000
+		maxDist, emitDist, nRandom = 6, 4, 100000
 	}
 	c.Logf("TLC: GossipValidateMC, cases with <= %d deviations checked against the property layer, <= %d printed (SenderCheck=%s)", maxDist, emitDist, senderCheck())
 	g, err := generateC04(c, maxDist, emitDist)
